@@ -1,5 +1,6 @@
 import QiVerif.Driver.Util
 import QiVerif.Model.Signals
+import QiVerif.Model.SignalsEmit
 namespace QiVerif.Driver.C13
 open QiVerif QiVerif.Driver QiVerif.Signals
 
@@ -192,6 +193,13 @@ def run (st : St) (args : List String) : St × String :=
     | some c => (setConn st k.toNat! { c with c := drain (noise c.c) }, "ok")
     | none => (st, "bad-op")
   | ["sg.got", g] => (st, gotStr st g.toNat!)
+  | "sg.emitrace" :: _ =>
+    -- the model's run of that schedule (Props/C13Emit.lean, `raceActs`): events for the removed registration behind
+    -- the acknowledgement; the theorem `at_most_one_late_event` bounds it by one on every schedule
+    let h := C13Emit.history (C13Emit.run {} C13Emit.raceActs)
+    let behind := (h.dropWhile (fun f => match f with | .ack 1 9 _ _ => false | _ => true)).filter
+      (fun f => match f with | .ev 1 9 _ => true | _ => false)
+    (st, if behind.length ≤ 1 then "late<=1" else s!"late={behind.length}")
   | "sg.burstcancel" :: _ => (st, "lost-or-ok")   -- what is queued for the fan-out goroutine at the cancel request is dropped
   | "sg.storm" :: _ => (st, "ok")     -- Props/C13: once, in order, the whole window, on every schedule
   | _ => (st, "bad-op")
